@@ -266,8 +266,8 @@ namespace BitSerializer::Convert::Detail
 			uint64_t val;
 			if constexpr (std::is_signed_v<TRep>)
 			{
-				constexpr uint64_t maxI64Negative = 9223372036854775808u;
-				val = timePart.count() == LLONG_MIN ? maxI64Negative : static_cast<uint64_t>(std::abs(timePart.count()));
+				// Magnitude by unsigned negation (std::abs is undefined for the minimum of the type)
+				val = timePart.count() < 0 ? 0 - static_cast<uint64_t>(timePart.count()) : static_cast<uint64_t>(timePart.count());
 			}
 			else {
 				val = timePart.count();
